@@ -33,7 +33,8 @@ run_demo() {
 if [ "$MODE" = confirm ] || [ "$MODE" = all ]; then
   if run_demo; then echo "CONFIRM $ID demo-without-patch: pass (good)"; else echo "CONFIRM $ID demo-without-patch: FAIL (bad demo)"; tail -5 "$WT/.demo.log"; fi
 fi
-git -C "$WT" apply "$D/patch.diff" || { echo "CONFIRM $ID patch does not apply"; exit 2; }
+git -C "$WT" apply "$D/patch.diff" 2>/dev/null || git -C "$WT" apply --3way "$D/patch.diff" >/dev/null 2>&1 || { echo "CONFIRM $ID patch does not apply"; exit 2; }
+git -C "$WT" reset -q 2>/dev/null
 if [ "$MODE" = confirm ] || [ "$MODE" = all ]; then
   if run_demo; then echo "CONFIRM $ID demo-with-patch: PASS (bad: change not demonstrated)"; else echo "CONFIRM $ID demo-with-patch: fail (good)"; fi
   python3 -c "
